@@ -59,51 +59,368 @@ let move_of = function
 
 let reg_of op = let r = Char.code op.[1] - 48 in if r < 0 || r > 3 then failwith "reg" else r
 
+(* ------------------------------------------------------------------ big trees: digest, LCG, orders
+   (mirrors harness/cmd/cursortrace/scale.go) *)
+
+let dg_p1 = 2147483647 and dg_m1 = 1000003 and dg_p2 = 2147483629 and dg_m2 = 1000033
+type dig = { mutable h1 : int; mutable h2 : int }
+let dnew () = { h1 = 0; h2 = 0 }
+let dadd d x =
+  let v1 = ((x mod dg_p1) + dg_p1) mod dg_p1 and v2 = ((x mod dg_p2) + dg_p2) mod dg_p2 in
+  d.h1 <- (d.h1 * dg_m1 + v1 + 12345) mod dg_p1;
+  d.h2 <- (d.h2 * dg_m2 + v2 + 54321) mod dg_p2
+let dadd_str d s = String.iter (fun c -> dadd d (Char.code c)) s; dadd d (-1)
+let dstr d = Printf.sprintf "%08x%08x" d.h1 d.h2
+let digest_of l = let d = dnew () in List.iter (dadd d) l; dstr d
+
+let plain_max = 200
+let zigzag = "npppnnpn"
+let fmt_ints l =
+  let n = List.length l in
+  if n <= plain_max then str_ints l
+  else Printf.sprintf "#%d~%d~%d~%s" n (List.hd l) (List.nth l (n - 1)) (digest_of l)
+
+let perm_of n seed =
+  let p = Array.init n (fun i -> i) in
+  let x = ref (((seed mod 2147483648) + 2147483648) mod 2147483648) in
+  for i = n - 1 downto 1 do
+    x := (!x * 1103515245 + 12345) mod 2147483648;
+    let j = (!x lsr 8) mod (i + 1) in
+    let t = p.(i) in p.(i) <- p.(j); p.(j) <- t
+  done;
+  Array.to_list p
+
+let rec order_idx pat n seed : int list option =
+  match pat with
+  | 'a' -> Some (List.init n (fun i -> i))
+  | 'd' -> Some (List.init n (fun i -> n - 1 - i))
+  | 'z' ->
+    let out = ref [] and lo = ref 0 and hi = ref (n - 1) in
+    while !lo <= !hi do
+      out := !lo :: !out;
+      if !lo <> !hi then out := !hi :: !out;
+      incr lo; decr hi
+    done;
+    Some (List.rev !out)
+  | 'i' -> (match order_idx 'z' n seed with Some l -> Some (List.rev l) | None -> None)
+  | 'r' -> Some (perm_of n seed)
+  | 'b' ->
+    let out = ref [] in
+    let q = Queue.create () in
+    Queue.add (0, n - 1) q;
+    while not (Queue.is_empty q) do
+      let (lo, hi) = Queue.pop q in
+      if lo <= hi then begin
+        let mid = lo + (hi - lo) / 2 in
+        out := mid :: !out;
+        Queue.add (lo, mid - 1) q; Queue.add (mid + 1, hi) q
+      end
+    done;
+    Some (List.rev !out)
+  | 'B' -> (match order_idx 'b' n seed with Some l -> Some (List.rev l) | None -> None)
+  | _ -> None
+
+let rec take m l = if m <= 0 then [] else match l with [] -> [] | x :: r -> x :: take (m - 1) r
+
+(* which ranks (of len keys) to remove, in order; depths only for s/p *)
+let removal_idx ord len keep seed (depths : unit -> int array) : int list =
+  let m = len - keep in
+  if m <= 0 || keep < 0 then [] else
+  let first pat = match order_idx pat len seed with Some l -> take m l | None -> [] in
+  match ord with
+  | 'l' -> first 'a' | 'h' -> first 'd' | 'o' -> first 'z'
+  | 'i' | 'b' | 'B' -> first ord
+  | 'r' -> take m (perm_of len seed)
+  | 'e' | 'E' ->
+    let kept = Array.make len false in
+    for j = 0 to keep - 1 do kept.(j * len / keep) <- true done;
+    let out = List.filter (fun i -> not kept.(i)) (List.init len (fun i -> i)) in
+    if ord = 'E' then List.rev out else out
+  | 's' | 'p' ->
+    let d = depths () in
+    let idx = List.init len (fun i -> i) in
+    let c = if ord = 's' then (fun a b -> compare d.(a) d.(b)) else (fun a b -> compare d.(b) d.(a)) in
+    take m (List.stable_sort c idx)
+  | _ -> []
+
+(* ---- the depth limit: largest k with 2000^k <= n * (1000+b)^k, exactly, capped at n (the value of
+   HeightModel.limit_capped: close to b = 1000 the exact limit is about 2000 ln n, far beyond any
+   depth a tree of n keys can have, and HeightLimit.v shows no comparison of Tree.insert can tell
+   the capped value from the exact one); n+1 at b = 1000.  As ocaml/stree_driver.ml: naturals-only
+   bignum, base 2^30, one incremental table per beta. *)
+let bbits = 30
+let bmask = (1 lsl bbits) - 1
+let big_trim (a : int array) =
+  let n = ref (Array.length a) in
+  while !n > 0 && a.(!n - 1) = 0 do decr n done;
+  if !n = Array.length a then a else Array.sub a 0 !n
+let big_mul_small (a : int array) (m : int) =
+  let n = Array.length a in
+  let r = Array.make (n + 2) 0 in
+  let carry = ref 0 in
+  for i = 0 to n - 1 do
+    let v = a.(i) * m + !carry in
+    r.(i) <- v land bmask; carry := v lsr bbits
+  done;
+  r.(n) <- !carry land bmask; r.(n + 1) <- !carry lsr bbits;
+  big_trim r
+let big_cmp (a : int array) (b : int array) =
+  let la = Array.length a and lb = Array.length b in
+  if la <> lb then compare la lb else begin
+    let i = ref (la - 1) in
+    while !i >= 0 && a.(!i) = b.(!i) do decr i done;
+    if !i < 0 then 0 else compare a.(!i) b.(!i)
+  end
+type ltab = { mutable k : int; mutable pa : int array; mutable pb : int array; mutable vals : int array; mutable upto : int }
+let ltabs : (int, ltab) Hashtbl.t = Hashtbl.create 16
+let limit_exact (b : int) (n : int) : int =
+  if b >= 1000 then n + 1
+  else if n < 1 then 0
+  else begin
+    let t = match Hashtbl.find_opt ltabs b with
+      | Some t -> t
+      | None -> let t = { k = 0; pa = [|1|]; pb = [|1|]; vals = Array.make 64 0; upto = 0 } in Hashtbl.add ltabs b t; t in
+    while t.upto < n do
+      let m = t.upto + 1 in
+      let continue = ref true in
+      while !continue && t.k < m do
+        let a2 = big_mul_small t.pa 2000 and b2 = big_mul_small t.pb (1000 + b) in
+        if big_cmp a2 (big_mul_small b2 m) <= 0 then begin t.pa <- a2; t.pb <- b2; t.k <- t.k + 1 end
+        else continue := false
+      done;
+      if m >= Array.length t.vals then begin
+        let v = Array.make (2 * m) 0 in Array.blit t.vals 0 v 0 (Array.length t.vals); t.vals <- v end;
+      t.vals.(m) <- t.k; t.upto <- m
+    done;
+    t.vals.(n)
+  end
+let limit_z (b : M.z) (n : M.z) : M.z = z_of_int (limit_exact (int_of_z b) (int_of_z n))
+
+(* ------------------------------------------------------------------ the register machine on the model *)
+
+type mach = { mutable t : int M.tree; regs : M.cursor array; mutable used : int; big : bool;
+              zcmp : int -> int -> M.z }
+
+let mach_reset m = Array.fill m.regs 0 4 M.CNil; m.used <- 0
+
+let mach_op (m : mach) op : string =
+  let t = m.t in
+  let ints l = if m.big then fmt_ints l else str_ints l in
+  let touch r = if r + 1 > m.used then m.used <- r + 1 in
+  let state () = String.concat "/" (List.init m.used (fun i -> obs_str t m.regs.(i))) in
+  if String.length op < 2 then "?" else begin
+    let r = Char.code op.[1] - 48 in
+    if r < 0 || r > 3 then "?" else
+    match op.[0] with
+    | ('K' | 'G' | 'j') when String.length op < 4 -> "?"
+    | 'C' when String.length op < 3 -> "?"
+    | 'K' -> let k = int_of_string (String.sub op 3 (String.length op - 3)) in
+      m.regs.(r) <- ok (M.tree_cursor m.zcmp t k); touch r; state ()
+    | 'G' -> let k = int_of_string (String.sub op 3 (String.length op - 3)) in
+      (match M.get m.zcmp k t with Some x -> "g:" ^ string_of_int x ^ ",1" | None -> "g:0,0")
+    | 'O' -> m.regs.(r) <- M.tree_root t; touch r; state ()
+    | 'Z' -> m.regs.(r) <- M.CNil; touch r; state ()
+    | 'E' -> m.regs.(r) <- M.CEmpty; touch r; state ()
+    | 'C' -> let b = Char.code op.[2] - 48 in
+      if b < 0 || b > 3 then "?" else begin
+        touch r; m.regs.(b) <- M.clone m.regs.(r); touch b; state () end
+    | 'n' | 'p' | 'l' | 'r' | 'u' | 'm' | 'x' ->
+      touch r; m.regs.(r) <- ok (M.step t m.regs.(r) (move_of op.[0])); state ()
+    | 'w' ->
+      let n = String.length op in
+      if n < 4 || op.[2] <> ':' || not (String.for_all (fun ch -> String.contains "nplrumxhHvk" ch) (String.sub op 3 (n - 3))) then "?"
+      else begin
+        touch r;
+        let c = ref m.regs.(r) and res = Buffer.create 16 in
+        String.iter (fun ch ->
+          match ch with
+          | 'h' -> Buffer.add_string res (b01 (ok (M.has_next t !c)))
+          | 'H' -> Buffer.add_string res (b01 (ok (M.has_prev t !c)))
+          | 'v' -> Buffer.add_string res (b01 (M.valid !c))
+          | 'k' -> Buffer.add_string res ("(" ^ string_of_int (ok (M.key 0 t !c)) ^ ")")
+          | mv -> c := ok (M.step t !c (move_of mv))) (String.sub op 3 (n - 3));
+        m.regs.(r) <- !c;
+        "y" ^ Buffer.contents res ^ "=" ^ state ()
+      end
+    | 'i' -> touch r; "i:" ^ ints (ok (M.cinorder_all t m.regs.(r)))
+    | 'j' -> touch r;
+      let lim = int_of_string (String.sub op 3 (String.length op - 3)) in
+      (* ks = append(ks, k); return len(ks) < lim *)
+      let (acc, _) = ok (M.cinorder t m.regs.(r) (fun (acc, n) x -> ((x :: acc, n + 1), n + 1 < lim)) ([], 0)) in
+      "i:" ^ ints (List.rev acc)
+    | 'N' | 'P' ->
+      touch r;
+      let len = List.length (M.inorder t) in
+      let mv = if op.[0] = 'N' then M.MNext else M.MPrev in
+      let ks = ref [] and step = ref 0 in
+      while M.valid m.regs.(r) && !step < len + 2 do
+        ks := ok (M.key 0 t m.regs.(r)) :: !ks;
+        m.regs.(r) <- ok (M.step t m.regs.(r) mv);
+        incr step
+      done;
+      "s:" ^ ints (List.rev !ks) ^ ":" ^ b01 (M.valid m.regs.(r))
+    | _ -> "?"
+  end
+
+(* the depth of every node, in in-order *)
+let depths_inorder (t : int M.tree) : int array =
+  let out = ref [] in
+  let rec go d = function
+    | M.Leaf -> ()
+    | M.Node (l, _, r) -> go (d + 1) l; out := d :: !out; go (d + 1) r in
+  go 0 t; Array.of_list (List.rev !out)
+
+let key_or t c = if M.valid c then ok (M.key 0 t c) else -1
+
+(* probe() of scale.go on the model *)
+let probe (zcmp : int -> int -> M.z) (tr : int M.tree0) s : string =
+  let t = M.big_root tr in
+  let keys = Array.of_list (M.inorder t) in
+  let n = Array.length keys in
+  let rank = Hashtbl.create (2 * n + 1) in
+  Array.iteri (fun i k -> Hashtbl.replace rank k i) keys;
+  let depths = depths_inorder t in
+  let root_key = ok (M.key 0 t (M.tree_root t)) in
+  let dd = dnew () and dkey = dnew () and dfl = dnew () and dpath = dnew () and dget = dnew () and dabs = dnew ()
+  and dnext = dnew () and dprev = dnew () and dzig = dnew () and dup = dnew () and dmin = dnew () and dmax = dnew () and dino = dnew ()
+  and dkeep = dnew () in
+  let maxd = ref 0 and sd = ref 0 and nv = ref 0 and nget = ref 0 and sup = ref 0 and nroot = ref 0
+  and sspan = ref 0 and sino = ref 0 and fb = ref "-" in
+  Array.iteri (fun i k ->
+    if i < Array.length depths then begin
+      let d = depths.(i) in dadd dd d; sd := !sd + d; if d > !maxd then maxd := d end;
+    let c = ok (M.tree_cursor zcmp t k) in
+    let ck = ok (M.key 0 t c) in
+    if M.valid c then incr nv;
+    if (not (M.valid c) || ck <> k) && !fb = "-" then fb := string_of_int k;
+    dadd dkey ck;
+    let bits = List.fold_left (fun v b -> 2 * v + (if b then 1 else 0)) 0
+      [M.valid c; ok (M.has_next t c); ok (M.has_prev t c); ok (M.has_left t c); ok (M.has_right t c); M.has_parent c] in
+    dadd dfl bits;
+    dadd_str dpath (path_str c);
+    (match M.get zcmp k t with Some v -> incr nget; dadd dget v | None -> dadd dget (-1));
+    dadd dabs (key_or t (ok (M.tree_cursor zcmp t (k + 1))));
+    let cn = ref (M.clone c) in
+    for _ = 1 to s do cn := ok (M.step t !cn M.MNext); dadd dnext (key_or t !cn) done;
+    let cp = ref (M.clone c) in
+    for _ = 1 to s do cp := ok (M.step t !cp M.MPrev); dadd dprev (key_or t !cp) done;
+    let cz = ref (M.clone c) in
+    String.iter (fun ch -> cz := ok (M.step t !cz (if ch = 'n' then M.MNext else M.MPrev)); dadd dzig (key_or t !cz)) zigzag;
+    let cu = ref (M.clone c) and steps = ref 0 in
+    while M.has_parent !cu && !steps < n + 2 do
+      cu := ok (M.step t !cu M.MUp); dadd dup (key_or t !cu); incr sup; incr steps
+    done;
+    if M.valid !cu && ok (M.key 0 t !cu) = root_key then incr nroot;
+    let mn = key_or t (ok (M.step t (M.clone c) M.MMin)) and mx = key_or t (ok (M.step t (M.clone c) M.MMax)) in
+    dadd dmin mn; dadd dmax mx;
+    (match Hashtbl.find_opt rank mn, Hashtbl.find_opt rank mx with
+     | Some a, Some b -> sspan := !sspan + b - a + 1
+     | _ -> ());
+    let sub = dnew () and cnt = ref 0 in
+    List.iter (fun x -> incr cnt; dadd sub x) (ok (M.cinorder_all t c));
+    sino := !sino + !cnt;
+    dadd dino !cnt; dadd dino sub.h1;
+    dadd dkeep (ok (M.key 0 t c))) keys;
+  let sweep start mv =
+    let c = ref start and ks = ref [] and step = ref 0 in
+    while M.valid !c && !step < n + 2 do
+      ks := ok (M.key 0 t !c) :: !ks; c := ok (M.step t !c mv); incr step
+    done; !ks in
+  let fwd = List.rev (sweep (ok (M.step t (M.tree_root t) M.MMin)) M.MNext) in
+  let bwd = sweep (ok (M.step t (M.tree_root t) M.MMax)) M.MPrev in     (* collected in reverse = reversed list *)
+  let i = string_of_int in
+  "q/" ^ String.concat "/" [
+    "n=" ^ i (int_of_z (M.big_len tr)); "keys=" ^ fmt_ints (Array.to_list keys); "root=" ^ i root_key;
+    "maxd=" ^ i !maxd; "sd=" ^ i !sd; "dd=" ^ dstr dd;
+    "nv=" ^ i !nv; "fb=" ^ !fb; "dkey=" ^ dstr dkey; "dfl=" ^ dstr dfl; "dpath=" ^ dstr dpath;
+    "nget=" ^ i !nget; "dget=" ^ dstr dget; "dabs=" ^ dstr dabs;
+    "dnext=" ^ dstr dnext; "dprev=" ^ dstr dprev; "dzig=" ^ dstr dzig;
+    "sup=" ^ i !sup; "nroot=" ^ i !nroot; "dup=" ^ dstr dup;
+    "dmin=" ^ dstr dmin; "dmax=" ^ dstr dmax; "sspan=" ^ i !sspan;
+    "sino=" ^ i !sino; "dino=" ^ dstr dino; "dkeep=" ^ dstr dkeep;
+    "nfwd=" ^ i (List.length fwd); "dfwd=" ^ digest_of fwd; "nbwd=" ^ i (List.length bwd); "dbwd=" ^ digest_of bwd ]
+
+let max_big_keys = 20000
+let int_opt s = try Some (int_of_string s) with _ -> None
+let ord_letters = "lhoibBreEsp"
+
+(* a macro op parsed: the harness answers "?" for anything else *)
+type macro = MA of char * int * int * int * int | MR of char * int * int | MQ of int | MBad | MPrim
+let parse_macro op =
+  if op = "" then MBad else
+  match op.[0] with
+  | 'A' ->
+    (match String.split_on_char ':' (String.sub op 1 (String.length op - 1)) with
+     | [p; lo; n; step; seed] when String.length p = 1 ->
+       (match int_opt lo, int_opt n, int_opt step, int_opt seed with
+        | Some lo, Some n, Some step, Some seed when n >= 0 && n <= max_big_keys && (n = 0 || order_idx p.[0] n seed <> None) ->
+          MA (p.[0], lo, n, step, seed)
+        | _ -> MBad)
+     | _ -> MBad)
+  | 'R' ->
+    (match String.split_on_char ':' (String.sub op 1 (String.length op - 1)) with
+     | [o; keep; seed] when String.length o = 1 && String.contains ord_letters o.[0] ->
+       (match int_opt keep, int_opt seed with
+        | Some keep, Some seed -> MR (o.[0], keep, seed)
+        | _ -> MBad)
+     | _ -> MBad)
+  | 'Q' ->
+    (match int_opt (String.sub op 1 (String.length op - 1)) with
+     | Some s when s >= 0 && s <= 64 -> MQ s
+     | _ -> MBad)
+  | _ -> MPrim
+
+let add_keys pat lo n step seed =
+  match order_idx pat n seed with Some idx -> List.map (fun j -> lo + step * j) idx | None -> []
+
+let eval_big cs beta ops =
+  let cf = cmp_of cs in
+  let zcmp a b = z_of_int (cf a b) in
+  let items = ref [] in
+  let push s = items := s :: !items in
+  (try
+    match int_opt beta with
+    | None -> push "?"
+    | Some beta ->
+      let tr = ref (match M.big_new zcmp (z_of_int beta) with M.Ok t -> t | _ -> raise (Fail "panic:other")) in
+      let m = { t = M.big_root !tr; regs = Array.make 4 M.CNil; used = 0; big = true; zcmp } in
+      List.iter (fun op ->
+        match parse_macro op with
+        | MBad -> push "?"
+        | MA (pat, lo, n, step, seed) ->
+          mach_reset m;
+          let cnt = ref 0 in
+          List.iter (fun k ->
+            let (t', b) = ok (M.big_add zcmp limit_z !tr k) in
+            tr := t'; if b then incr cnt) (add_keys pat lo n step seed);
+          m.t <- M.big_root !tr;
+          push ("a" ^ string_of_int !cnt)
+        | MR (ord, keep, seed) ->
+          let keys = Array.of_list (M.inorder (M.big_root !tr)) in
+          let idx = removal_idx ord (Array.length keys) keep seed (fun () -> depths_inorder (M.big_root !tr)) in
+          mach_reset m;
+          let cnt = ref 0 in
+          List.iter (fun j ->
+            let (t', b) = ok (M.big_remove zcmp !tr keys.(j)) in
+            tr := t'; if b then incr cnt) idx;
+          m.t <- M.big_root !tr;
+          push ("r" ^ string_of_int !cnt)
+        | MQ s -> push (probe zcmp !tr s)
+        | MPrim -> push (mach_op m op)) (split_on ';' ops)
+  with Fail s -> items := s :: !items);
+  String.concat ";" (List.rev !items)
+
 let eval inp =
   match words inp with
+  | ["B"; cs; beta; ops] -> eval_big cs beta ops
   | ["W"; cs; _build; shape; ops] | ["W"; cs; _build; shape; ops; _] ->
     let cf = cmp_of cs in
     let zcmp a b = z_of_int (cf a b) in
     let t = parse_shape shape in
     let items = ref ["t:" ^ str_ints (M.inorder t)] in
-    let regs = Array.make 4 M.CNil in
-    let used = ref 0 in
-    let touch r = if r + 1 > !used then used := r + 1 in
-    let state () = String.concat "/" (List.init !used (fun i -> obs_str t regs.(i))) in
+    let m = { t; regs = Array.make 4 M.CNil; used = 0; big = false; zcmp } in
     (try
-      List.iter (fun op ->
-        if String.length op < 2 then items := "?" :: !items else begin
-        let r = reg_of op in
-        match op.[0] with
-        | 'K' -> let k = int_of_string (String.sub op 3 (String.length op - 3)) in
-          regs.(r) <- ok (M.tree_cursor zcmp t k); touch r; items := state () :: !items
-        | 'G' -> let k = int_of_string (String.sub op 3 (String.length op - 3)) in
-          items := (match M.get zcmp k t with Some x -> "g:" ^ string_of_int x ^ ",1" | None -> "g:0,0") :: !items
-        | 'O' -> regs.(r) <- M.tree_root t; touch r; items := state () :: !items
-        | 'Z' -> regs.(r) <- M.CNil; touch r; items := state () :: !items
-        | 'E' -> regs.(r) <- M.CEmpty; touch r; items := state () :: !items
-        | 'C' -> let b = Char.code op.[2] - 48 in
-          touch r; regs.(b) <- M.clone regs.(r); touch b; items := state () :: !items
-        | 'n' | 'p' | 'l' | 'r' | 'u' | 'm' | 'x' ->
-          touch r; regs.(r) <- ok (M.step t regs.(r) (move_of op.[0])); items := state () :: !items
-        | 'i' -> touch r; items := ("i:" ^ str_ints (ok (M.cinorder_all t regs.(r)))) :: !items
-        | 'j' -> touch r;
-          let lim = int_of_string (String.sub op 3 (String.length op - 3)) in
-          (* ks = append(ks, k); return len(ks) < lim *)
-          let (acc, _) = ok (M.cinorder t regs.(r) (fun (acc, n) x -> ((x :: acc, n + 1), n + 1 < lim)) ([], 0)) in
-          items := ("i:" ^ str_ints (List.rev acc)) :: !items
-        | 'N' | 'P' ->
-          touch r;
-          let len = List.length (M.inorder t) in
-          let mv = if op.[0] = 'N' then M.MNext else M.MPrev in
-          let ks = ref [] and step = ref 0 in
-          while M.valid regs.(r) && !step < len + 2 do
-            ks := ok (M.key 0 t regs.(r)) :: !ks;
-            regs.(r) <- ok (M.step t regs.(r) mv);
-            incr step
-          done;
-          items := ("s:" ^ str_ints (List.rev !ks) ^ ":" ^ b01 (M.valid regs.(r))) :: !items
-        | _ -> items := "?" :: !items end) (split_on ';' ops)
+      List.iter (fun op -> items := mach_op m op :: !items) (split_on ';' ops)
     with Fail s -> items := s :: !items);
     String.concat ";" (List.rev !items)
   | _ -> "?"
@@ -112,9 +429,375 @@ let eval inp =
 
 type st = Inv | At of { i : int; lo : int option; hi : int option; bits : string }
 
+(* the reference machine: the key list l (ascending in the comparator's order) and, per register,
+   the index of its key in l and what is known of its subtree's range *)
+(* per in-order rank of the recorded shape: rank of the parent, of the left and of the right child
+   (-1: none) and the range lo..hi-1 of ranks of its subtree *)
+type rank_tbl = { par : int array; lc : int array; rc : int array; tlo : int array; thi : int array }
+
+let rank_table (t : int M.tree) : rank_tbl =
+  let n = List.length (ml_inorder t) in
+  let tb = { par = Array.make n (-1); lc = Array.make n (-1); rc = Array.make n (-1); tlo = Array.make n 0; thi = Array.make n 0 } in
+  (* go t lo parent: the subtree t holds the ranks lo..; returns (rank of its root or -1, first rank after it) *)
+  let rec go t lo parent =
+    match t with
+    | M.Leaf -> (-1, lo)
+    | M.Node (l, _, r) ->
+      let rec size = function M.Leaf -> 0 | M.Node (a, _, b) -> size a + 1 + size b in
+      let me = lo + size l in
+      let (lr, _) = go l lo me in
+      let (rr, hi) = go r (me + 1) me in
+      tb.par.(me) <- parent; tb.lc.(me) <- lr; tb.rc.(me) <- rr; tb.tlo.(me) <- lo; tb.thi.(me) <- hi;
+      (me, hi) in
+  ignore (go t 0 (-1)); tb
+
+type sm = { mutable l : int array; sregs : st array; last : string array; mutable sused : int;
+            cf : int -> int -> int; sbig : bool; tbl : rank_tbl option }
+
+let sm_reset m = Array.fill m.sregs 0 4 Inv; Array.fill m.last 0 4 ""; m.sused <- 0
+
+(* one register op and the implementation's item for it *)
+let sm_op (m : sm) op it =
+  let l = m.l and cf = m.cf and regs = m.sregs and last = m.last in
+  let n = Array.length l in
+  let ints x = if m.sbig then fmt_ints x else str_ints x in
+  let index k = let r = ref (-1) in Array.iteri (fun j x -> if x = k then r := j) l; !r in
+  let find_equiv k = let r = ref (-1) in Array.iteri (fun j x -> if cf k x = 0 then r := j) l; !r in
+  let touch r = if r + 1 > m.sused then m.sused <- r + 1 in
+  let fail r op msg = raise (Fail (Printf.sprintf "op %s reg %d: %s" op r msg)) in
+  (* check one observation against the abstract state, learning range ends from HasLeft/HasRight *)
+  let check r op o =
+    match String.split_on_char ':' o with
+    | [path; key; bits] when String.length bits = 6 ->
+      (match regs.(r) with
+       | Inv ->
+         if bits <> "000000" then fail r op "an invalid cursor reports Valid or a Has* flag";
+         if key <> "0" then fail r op "an invalid cursor reports a non-zero key";
+         if path <> "nil" && path <> "-" then fail r op "an invalid cursor has a non-empty path"
+       | At a ->
+         if bits.[0] <> '1' then fail r op "cursor should be valid";
+         if int_of_string key <> l.(a.i) then fail r op (Printf.sprintf "key %s, expected %d (index %d)" key l.(a.i) a.i);
+         if (bits.[1] = '1') <> (a.i + 1 < n) then fail r op "HasNext wrong";
+         if (bits.[2] = '1') <> (a.i > 0) then fail r op "HasPrev wrong";
+         if String.length path = 0 || path.[0] <> '^' || String.contains path '?' then fail r op ("path left the tree: " ^ path);
+         if (bits.[5] = '1') <> (String.length path > 1) then fail r op "HasParent disagrees with the path";
+         let lo = if bits.[3] = '0' then (match a.lo with Some x when x <> a.i -> fail r op "HasLeft false but the subtree starts earlier" | _ -> Some a.i)
+                  else (match a.lo with Some x when x >= a.i -> fail r op "HasLeft true but nothing smaller in the subtree" | v -> v) in
+         let hi = if bits.[4] = '0' then (match a.hi with Some x when x <> a.i + 1 -> fail r op "HasRight false but the subtree ends later" | _ -> Some (a.i + 1))
+                  else (match a.hi with Some x when x <= a.i + 1 -> fail r op "HasRight true but nothing larger in the subtree" | v -> v) in
+         (match lo, hi with
+          | Some x, Some y -> if (bits.[5] = '1') = (x = 0 && y = n) then fail r op "HasParent wrong for the subtree's range"
+          | _ -> ());
+         regs.(r) <- At { a with lo; hi; bits })
+    | _ -> fail r op ("bad observation " ^ o) in
+  let key_index r op o =
+    match String.split_on_char ':' o with
+    | [_; key; bits] when String.length bits = 6 && bits.[0] = '1' ->
+      let j = index (int_of_string key) in if j < 0 then fail r op "key not in the tree" else j
+    | _ -> fail r op "cursor should be valid" in
+  (* a printed key list: its length and first key (the list itself is compared through its printed form) *)
+  let list_head r op txt =
+    if String.length txt > 0 && txt.[0] = '#' then
+      (match String.split_on_char '~' (String.sub txt 1 (String.length txt - 1)) with
+       | [len; first; _; _] -> (int_of_string len, int_of_string first)
+       | _ -> fail r op "bad key list")
+    else (match ints_of txt with [] -> (0, 0) | x :: _ as ks -> (List.length ks, x)) in
+  if String.length it >= 5 && String.sub it 0 5 = "panic" then raise (Fail ("panic at " ^ op));
+  if it = "hang" then raise (Fail ("hang at " ^ op));
+  let r = reg_of op in
+  let c = op.[0] in
+  if c <> 'G' then touch r;
+  (match c with
+   | 'G' ->
+     (* Tree.Get(k): the stored key equivalent to k and true, or the zero key and false *)
+     let k = int_of_string (String.sub op 3 (String.length op - 3)) in
+     let j = find_equiv k in
+     let want = if j < 0 then "g:0,0" else "g:" ^ string_of_int l.(j) ^ ",1" in
+     if it <> want then fail r op (Printf.sprintf "Get: got %s, the key list gives %s" it want)
+   | 'i' | 'j' ->
+     if String.length it < 2 || String.sub it 0 2 <> "i:" then fail r op "bad item";
+     let txt = String.sub it 2 (String.length it - 2) in
+     let (mlen, first) = list_head r op txt in
+     (match regs.(r) with
+      | Inv -> if mlen <> 0 then fail r op "Inorder of an invalid cursor yields keys"
+      | At a ->
+        if mlen = 0 then fail r op "Inorder of a valid cursor yields nothing";
+        let s = index first in
+        if s < 0 || s + mlen > n || txt <> ints (Array.to_list (Array.sub l s mlen)) then fail r op "Inorder is not a run of consecutive keys of the tree";
+        (match a.lo with Some x when x <> s -> fail r op "Inorder does not start at the least key of the subtree" | _ -> ());
+        if c = 'i' then begin
+          if not (s <= a.i && a.i < s + mlen) then fail r op "Inorder does not contain the cursor's key";
+          (match a.hi with Some y when y <> s + mlen -> fail r op "Inorder does not end at the greatest key of the subtree" | _ -> ());
+          regs.(r) <- At { a with lo = Some s; hi = Some (s + mlen) }
+        end else begin
+          let lim = int_of_string (String.sub op 3 (String.length op - 3)) in
+          if mlen > lim then fail r op "Inorder went on after yield returned false";
+          (match a.hi with Some y when mlen <> min lim (y - s) -> fail r op "stopped Inorder has the wrong length" | _ -> ());
+          if mlen < lim then begin
+            if not (s <= a.i && a.i < s + mlen) then fail r op "Inorder does not contain the cursor's key";
+            regs.(r) <- At { a with lo = Some s; hi = Some (s + mlen) }
+          end else regs.(r) <- At { a with lo = Some s }
+        end)
+   | 'w' ->
+     (* moves with nothing observed in between: followed on the ranks of the recorded shape (an
+        independent reading of the moves: Next/Prev rank +-1, Left/Right/Up the child/parent rank,
+        Min/Max the ends of the subtree's range; invalid stays invalid) *)
+     let seq = if String.length op >= 4 && op.[2] = ':' then String.sub op 3 (String.length op - 3) else fail r op "bad compound op" in
+     let (answers, obs_txt) =
+       if String.length it > 0 && it.[0] = 'y' then
+         (match String.index_opt it '=' with
+          | Some i -> (String.sub it 1 (i - 1), String.sub it (i + 1) (String.length it - i - 1))
+          | None -> fail r op "bad item")
+       else fail r op "bad item" in
+     let pos = ref (match regs.(r) with Inv -> -1 | At a -> a.i) in
+     let want = Buffer.create 16 in
+     let need_tbl () = match m.tbl with Some tb -> tb | None -> fail r op "a compound move through the shape, but the line has no shape" in
+     String.iter (fun ch ->
+       let i = !pos in
+       match ch with
+       | 'h' -> Buffer.add_string want (b01 (i >= 0 && i + 1 < n))
+       | 'H' -> Buffer.add_string want (b01 (i > 0))
+       | 'v' -> Buffer.add_string want (b01 (i >= 0))
+       | 'k' -> Buffer.add_string want ("(" ^ string_of_int (if i >= 0 then l.(i) else 0) ^ ")")
+       | _ when i < 0 -> ()
+       | 'n' -> pos := if i + 1 < n then i + 1 else -1
+       | 'p' -> pos := i - 1
+       | 'l' -> pos := (need_tbl ()).lc.(i)
+       | 'r' -> pos := (need_tbl ()).rc.(i)
+       | 'u' -> pos := (need_tbl ()).par.(i)
+       | 'm' -> pos := (need_tbl ()).tlo.(i)
+       | 'x' -> pos := (need_tbl ()).thi.(i) - 1
+       | _ -> fail r op "bad compound op") seq;
+     if answers <> Buffer.contents want then fail r op (Printf.sprintf "answers inside the walk are %s, the ranks give %s" answers (Buffer.contents want));
+     let obs = Array.of_list (String.split_on_char '/' obs_txt) in
+     if Array.length obs <> m.sused then fail r op "wrong number of registers";
+     Array.iteri (fun q o -> if q <> r && last.(q) <> "" && o <> last.(q) then fail q op "a cursor changed although another one was moved") obs;
+     regs.(r) <- (if !pos < 0 then Inv
+                  else match m.tbl with
+                    | Some tb -> At { i = !pos; lo = Some tb.tlo.(!pos); hi = Some tb.thi.(!pos); bits = "" }
+                    | None -> At { i = !pos; lo = None; hi = None; bits = "" });
+     check r op obs.(r);
+     Array.iteri (fun q o -> last.(q) <- o) obs
+   | 'N' | 'P' ->
+     (match String.split_on_char ':' it with
+      | ["s"; ks; v] ->
+        if v <> "0" then fail r op "still valid after Len+2 steps";
+        let want = match regs.(r) with
+          | Inv -> []
+          | At a -> if c = 'N' then Array.to_list (Array.sub l a.i (n - a.i))
+                    else List.rev (Array.to_list (Array.sub l 0 (a.i + 1))) in
+        if ks <> ints want then fail r op "sweep does not visit exactly the keys from the cursor to the end in order";
+        regs.(r) <- Inv;
+        last.(r) <- ""            (* the sweep moved this register; its state is printed by the next op *)
+      | _ -> fail r op "bad item")
+   | _ ->
+     let bang = String.length it > 0 && it.[String.length it - 1] = '!' in
+     if bang then fail r op "the method did not return its receiver";
+     let obs = Array.of_list (String.split_on_char '/' it) in
+     let target = if c = 'C' then Char.code op.[2] - 48 else r in
+     if target < 0 || target > 3 then fail r op "bad register";
+     touch target;
+     if Array.length obs <> m.sused then fail r op "wrong number of registers";
+     (* a move of one cursor leaves every other cursor (clones included) where it was *)
+     Array.iteri (fun q o -> if q <> target && last.(q) <> "" && o <> last.(q) then fail q op "a cursor changed although another one was moved") obs;
+     let o = obs.(target) in
+     let prev = regs.(target) in
+     let idx () = key_index target op o in
+     let nxt =
+       match c, prev with
+       | 'K', _ ->
+         let k = int_of_string (String.sub op 3 (String.length op - 3)) in
+         let j = find_equiv k in
+         if j < 0 then (if String.length o < 3 || String.sub o 0 3 <> "nil" then fail r op "Cursor(absent key) is not nil"; Inv)
+         else At { i = j; lo = None; hi = None; bits = "" }
+       | 'O', _ -> if n = 0 then (if String.length o < 3 || String.sub o 0 3 <> "nil" then fail r op "Root of an empty tree is not nil"; Inv)
+                   else At { i = idx (); lo = Some 0; hi = Some n; bits = "" }
+       | ('Z' | 'E'), _ -> Inv
+       | 'C', _ -> regs.(r)
+       | _, Inv -> Inv
+       | 'n', At a -> if a.i + 1 < n then At { i = a.i + 1; lo = None; hi = None; bits = "" } else Inv
+       | 'p', At a -> if a.i > 0 then At { i = a.i - 1; lo = None; hi = None; bits = "" } else Inv
+       | 'l', At a ->
+         if a.bits.[3] = '1' then begin
+           let j = idx () in
+           if j >= a.i then fail r op "Left moved to a key that is not smaller";
+           (match a.lo with Some x when j < x -> fail r op "Left left the subtree" | _ -> ());
+           At { i = j; lo = a.lo; hi = Some a.i; bits = "" }
+         end else Inv
+       | 'r', At a ->
+         if a.bits.[4] = '1' then begin
+           let j = idx () in
+           if j <= a.i then fail r op "Right moved to a key that is not larger";
+           (match a.hi with Some y when j >= y -> fail r op "Right left the subtree" | _ -> ());
+           At { i = j; lo = Some (a.i + 1); hi = a.hi; bits = "" }
+         end else Inv
+       | 'u', At a ->
+         if a.bits.[5] = '1' then begin
+           let j = idx () in
+           if j = a.i then fail r op "Up did not move";
+           (match a.lo, a.hi with
+            | Some x, Some y -> if j <> y && j <> x - 1 then fail r op "Up did not reach the key adjacent to the subtree's range"
+            | Some x, None -> if j < a.i && j <> x - 1 then fail r op "Up reached a smaller key that is not the one just below the subtree"
+            | None, Some y -> if j > a.i && j <> y then fail r op "Up reached a larger key that is not the one just above the subtree"
+            | None, None -> ());
+           At { i = j; lo = (if j > a.i then a.lo else None); hi = (if j < a.i then a.hi else None); bits = "" }
+         end else Inv
+       | 'm', At a ->
+         let j = idx () in
+         if j > a.i then fail r op "Min moved to a larger key";
+         (match a.lo with Some x when j <> x -> fail r op "Min is not the least key of the subtree" | _ -> ());
+         At { i = j; lo = Some j; hi = None; bits = "" }
+       | 'x', At a ->
+         let j = idx () in
+         if j < a.i then fail r op "Max moved to a smaller key";
+         (match a.hi with Some y when j + 1 <> y -> fail r op "Max is not the greatest key of the subtree" | _ -> ());
+         At { i = j; lo = None; hi = Some (j + 1); bits = "" }
+       | _ -> fail r op "unknown op" in
+     regs.(target) <- nxt;
+     check target op o;
+     Array.iteri (fun q o -> last.(q) <- o) obs)
+
+let sm_run m ops items =
+  let rec go ops items =
+    match ops, items with
+    | [], [] -> ()
+    | [], it :: _ -> raise (Fail ("extra output " ^ it))
+    | op :: _, [] -> raise (Fail ("no output for " ^ op))
+    | op :: ops', it :: items' -> sm_op m op it; go ops' items' in
+  go ops items
+
+(* ---- B lines.  The reference is the set of keys the macro operations leave (plain OCaml, from the
+   arithmetic of the line alone); after a removal in real-depth order (s/p) only its size is known
+   until a probe prints the keys in full.  Of a probe item the reference decides: n, keys, nv, fb,
+   dkey, nget, dget, dabs, dnext, dprev, dkeep, nroot, nfwd, dfwd, nbwd, dbwd; the identities
+   sup = sd, sino = sspan = sd + n tie the cursor walks to the depths read by the hook; the
+   remaining digests (dd, dfl, dpath, dup, dmin, dmax, dino) are shape-dependent and are compared
+   with the model's only (correspondence). *)
+let spec_big cs ops out =
+  let cf = cmp_of cs in
+  let module S = Set.Make (struct type t = int let compare a b = let c = cf a b in if c < 0 then -1 else if c > 0 then 1 else 0 end) in
+  let known = ref (Some S.empty) and card = ref 0 in
+  let m = { l = [||]; sregs = Array.make 4 Inv; last = Array.make 4 ""; sused = 0; cf; sbig = true; tbl = None } in
+  let sync () = match !known with Some s -> m.l <- Array.of_list (S.elements s) | None -> m.l <- [||] in
+  let failop op msg = raise (Fail (Printf.sprintf "op %s: %s" op msg)) in
+  let rec go ops items =
+    match ops, items with
+    | [], [] -> ()
+    | [], it :: _ -> raise (Fail ("extra output " ^ it))
+    | op :: _, [] -> raise (Fail ("no output for " ^ op))
+    | op :: ops', it :: items' ->
+      if String.length it >= 5 && String.sub it 0 5 = "panic" then raise (Fail ("panic at " ^ op));
+      if it = "hang" then raise (Fail ("hang at " ^ op));
+      (match parse_macro op with
+       | MBad -> ()
+       | MA (pat, lo, n, step, seed) ->
+         sm_reset m;
+         (match !known with
+          | Some s ->
+            let s = ref s and cnt = ref 0 in
+            List.iter (fun k -> if not (S.mem k !s) then begin s := S.add k !s; incr cnt end) (add_keys pat lo n step seed);
+            known := Some !s; card := S.cardinal !s; sync ();
+            if it <> "a" ^ string_of_int !cnt then failop op (Printf.sprintf "Add reported %s, %d of the keys are new" it !cnt)
+          | None ->
+            (* size unknown from here until the next probe *)
+            card := -1)
+       | MR (ord, keep, seed) ->
+         sm_reset m;
+         if !card >= 0 then begin
+           let len = !card in
+           let mrem = if keep < 0 then 0 else max 0 (len - keep) in
+           if it <> "r" ^ string_of_int mrem then failop op (Printf.sprintf "Remove reported %s for %d distinct present keys" it mrem);
+           card := len - mrem;
+           (match !known with
+            | Some s when mrem > 0 ->
+              if ord = 's' || ord = 'p' then known := None
+              else begin
+                let keys = Array.of_list (S.elements s) in
+                let idx = removal_idx ord len keep seed (fun () -> [||]) in
+                known := Some (List.fold_left (fun s j -> S.remove keys.(j) s) s idx)
+              end
+            | _ -> ());
+           sync ()
+         end
+       | MQ sw ->
+         let f = match String.split_on_char '/' it with
+           | "q" :: fs -> List.filter_map (fun x -> match String.index_opt x '=' with
+               | Some i -> Some (String.sub x 0 i, String.sub x (i + 1) (String.length x - i - 1)) | None -> None) fs
+           | _ -> failop op "bad probe item" in
+         let get k = try List.assoc k f with Not_found -> failop op ("probe item without " ^ k) in
+         let geti k = try int_of_string (get k) with Failure _ -> failop op ("bad number in " ^ k) in
+         let n = geti "n" in
+         if !card >= 0 && n <> !card then failop op (Printf.sprintf "Len is %d, the reference holds %d keys" n !card);
+         card := n;
+         let keys_txt = get "keys" in
+         (* the key list: in full, or length/first/last/digest *)
+         let dk =
+           if String.length keys_txt > 0 && keys_txt.[0] = '#' then begin
+             match String.split_on_char '~' (String.sub keys_txt 1 (String.length keys_txt - 1)) with
+             | [len; _; _; dg] ->
+               if int_of_string len <> n then failop op "Tree.Inorder yields a number of keys other than Len";
+               (match !known with
+                | Some s -> if keys_txt <> fmt_ints (S.elements s) then failop op "Tree.Inorder differs from the reference key set"
+                | None -> ());
+               dg
+             | _ -> failop op "bad key list"
+           end else begin
+             let ks = ints_of keys_txt in
+             if List.length ks <> n then failop op "Tree.Inorder yields a number of keys other than Len";
+             let rec asc = function a :: (b :: _ as r) -> cf a b < 0 && asc r | _ -> true in
+             if not (asc ks) then failop op "Tree.Inorder not strictly ascending";
+             (match !known with
+              | Some s -> if ks <> S.elements s then failop op "Tree.Inorder differs from the reference key set"
+              | None -> known := Some (S.of_list ks); sync ());
+             digest_of ks
+           end in
+         if get "fb" <> "-" then failop op (Printf.sprintf "Tree.Cursor(%s) is not a valid cursor at that key although Tree.Inorder lists the key" (get "fb"));
+         let want_n k what = if geti k <> n then failop op (Printf.sprintf "%s: %d of %d keys" what (geti k) n) in
+         want_n "nv" "Tree.Cursor(key) valid";
+         want_n "nget" "Tree.Get(key) found";
+         want_n "nroot" "Up while HasParent ends at Root().Key()";
+         want_n "nfwd" "Root().Min() then Next visits";
+         want_n "nbwd" "Root().Max() then Prev visits";
+         let want_dk k what = if get k <> dk then failop op (what ^ " differ from Tree.Inorder") in
+         want_dk "dkey" "the keys of Tree.Cursor(key)";
+         want_dk "dget" "the keys Tree.Get returns";
+         want_dk "dkeep" "the keys of the cursors after their clones moved";
+         want_dk "dfwd" "the keys of the forward sweep";
+         want_dk "dbwd" "the keys of the backward sweep";
+         let sd = geti "sd" in
+         if geti "sup" <> sd then failop op "the Up steps to the root do not add up to the depths of the nodes";
+         if geti "sino" <> sd + n then failop op "the sizes of the cursors' Inorder do not add up to the sizes of the subtrees (sum of depths + n)";
+         if geti "sspan" <> sd + n then failop op "the ranges Min..Max of the cursors do not add up to the sizes of the subtrees";
+         if n > 0 && geti "maxd" >= n then failop op "depth beyond the number of keys";
+         (match !known with
+          | Some s ->
+            let keys = Array.of_list (S.elements s) in
+            if n > 0 && not (S.mem (geti "root") s) then failop op "Root().Key() is not a key of the tree";
+            let dabs = dnew () and dnext = dnew () and dprev = dnew () and dzig = dnew () in
+            Array.iteri (fun i k ->
+              dadd dabs (match S.find_opt (k + 1) s with Some x -> x | None -> -1);
+              for j = 1 to sw do dadd dnext (if i + j < n then keys.(i + j) else -1) done;
+              for j = 1 to sw do dadd dprev (if i - j >= 0 then keys.(i - j) else -1) done;
+              let pos = ref i in
+              String.iter (fun ch ->
+                if !pos >= 0 then pos := (if ch = 'n' then (if !pos + 1 < n then !pos + 1 else -1) else !pos - 1);
+                dadd dzig (if !pos >= 0 then keys.(!pos) else -1)) zigzag) keys;
+            if get "dzig" <> dstr dzig then failop op "a walk Next,Prev,Prev,Prev,Next,Next,Prev,Next from some key does not visit the neighbouring keys";
+            if get "dabs" <> dstr dabs then failop op "Tree.Cursor(key+1) is not the cursor of that key / nil for an absent key";
+            if get "dnext" <> dstr dnext then failop op "Next from some key does not visit the following keys in order";
+            if get "dprev" <> dstr dprev then failop op "Prev from some key does not visit the preceding keys in order"
+          | None -> ())
+       | MPrim ->
+         (match !known with
+          | Some _ -> sm_op m op it
+          | None -> ()));
+      go ops' items' in
+  (try go ops (split_on ';' out); None with Fail s -> Some s)
+
 let spec prop inp out =
   if prop <> "C03" then None else
   match words inp with
+  | ["B"; cs; _beta; ops] -> spec_big cs (split_on ';' ops) out
   | "W" :: cs :: _build :: shape :: rest ->
     let ops = match rest with [o] -> split_on ';' o | _ -> [] in
     let cf = cmp_of cs in
@@ -126,165 +809,8 @@ let spec prop inp out =
       let n = Array.length l in
       for k = 0 to n - 2 do if cf l.(k) l.(k+1) >= 0 then raise (Fail "Tree.Inorder not strictly ascending") done;
       if Array.to_list l <> ml_inorder (parse_shape shape) then raise (Fail "shape read from the nodes disagrees with Tree.Inorder");
-      let index k = let r = ref (-1) in Array.iteri (fun j x -> if x = k then r := j) l; !r in
-      let find_equiv k = let r = ref (-1) in Array.iteri (fun j x -> if cf k x = 0 then r := j) l; !r in
-      let regs = Array.make 4 Inv in
-      let last = Array.make 4 "" in          (* last observation string of each register *)
-      let used = ref 0 in
-      let touch r = if r + 1 > !used then used := r + 1 in
-      let fail r op msg = raise (Fail (Printf.sprintf "op %s reg %d: %s" op r msg)) in
-      (* check one observation against the abstract state, learning range ends from HasLeft/HasRight *)
-      let check r op o =
-        match String.split_on_char ':' o with
-        | [path; key; bits] when String.length bits = 6 ->
-          (match regs.(r) with
-           | Inv ->
-             if bits <> "000000" then fail r op "an invalid cursor reports Valid or a Has* flag";
-             if key <> "0" then fail r op "an invalid cursor reports a non-zero key";
-             if path <> "nil" && path <> "-" then fail r op "an invalid cursor has a non-empty path"
-           | At a ->
-             if bits.[0] <> '1' then fail r op "cursor should be valid";
-             if int_of_string key <> l.(a.i) then fail r op (Printf.sprintf "key %s, expected %d (index %d)" key l.(a.i) a.i);
-             if (bits.[1] = '1') <> (a.i + 1 < n) then fail r op "HasNext wrong";
-             if (bits.[2] = '1') <> (a.i > 0) then fail r op "HasPrev wrong";
-             if String.length path = 0 || path.[0] <> '^' || String.contains path '?' then fail r op ("path left the tree: " ^ path);
-             if (bits.[5] = '1') <> (String.length path > 1) then fail r op "HasParent disagrees with the path";
-             let lo = if bits.[3] = '0' then (match a.lo with Some x when x <> a.i -> fail r op "HasLeft false but the subtree starts earlier" | _ -> Some a.i)
-                      else (match a.lo with Some x when x >= a.i -> fail r op "HasLeft true but nothing smaller in the subtree" | v -> v) in
-             let hi = if bits.[4] = '0' then (match a.hi with Some x when x <> a.i + 1 -> fail r op "HasRight false but the subtree ends later" | _ -> Some (a.i + 1))
-                      else (match a.hi with Some x when x <= a.i + 1 -> fail r op "HasRight true but nothing larger in the subtree" | v -> v) in
-             (match lo, hi with
-              | Some x, Some y -> if (bits.[5] = '1') = (x = 0 && y = n) then fail r op "HasParent wrong for the subtree's range"
-              | _ -> ());
-             regs.(r) <- At { a with lo; hi; bits })
-        | _ -> fail r op ("bad observation " ^ o) in
-      let key_index r op o =
-        match String.split_on_char ':' o with
-        | [_; key; bits] when String.length bits = 6 && bits.[0] = '1' ->
-          let j = index (int_of_string key) in if j < 0 then fail r op "key not in the tree" else j
-        | _ -> fail r op "cursor should be valid" in
-      let rec go ops items =
-        match ops, items with
-        | [], [] -> ()
-        | [], it :: _ -> raise (Fail ("extra output " ^ it))
-        | op :: _, [] -> raise (Fail ("no output for " ^ op))
-        | op :: ops', it :: items' ->
-          if String.length it >= 5 && String.sub it 0 5 = "panic" then raise (Fail ("panic at " ^ op));
-          if it = "hang" then raise (Fail ("hang at " ^ op));
-          let r = reg_of op in
-          let c = op.[0] in
-          if c <> 'G' then touch r;
-          (match c with
-           | 'G' ->
-             (* Tree.Get(k): the stored key equivalent to k and true, or the zero key and false *)
-             let k = int_of_string (String.sub op 3 (String.length op - 3)) in
-             let j = find_equiv k in
-             let want = if j < 0 then "g:0,0" else "g:" ^ string_of_int l.(j) ^ ",1" in
-             if it <> want then fail r op (Printf.sprintf "Get: got %s, the key list gives %s" it want)
-           | 'i' | 'j' ->
-             if String.length it < 2 || String.sub it 0 2 <> "i:" then fail r op "bad item";
-             let ks = ints_of (String.sub it 2 (String.length it - 2)) in
-             (match regs.(r) with
-              | Inv -> if ks <> [] then fail r op "Inorder of an invalid cursor yields keys"
-              | At a ->
-                let m = List.length ks in
-                if m = 0 then fail r op "Inorder of a valid cursor yields nothing";
-                let s = index (List.hd ks) in
-                if s < 0 || s + m > n || ks <> Array.to_list (Array.sub l s m) then fail r op "Inorder is not a run of consecutive keys of the tree";
-                (match a.lo with Some x when x <> s -> fail r op "Inorder does not start at the least key of the subtree" | _ -> ());
-                if c = 'i' then begin
-                  if not (s <= a.i && a.i < s + m) then fail r op "Inorder does not contain the cursor's key";
-                  (match a.hi with Some y when y <> s + m -> fail r op "Inorder does not end at the greatest key of the subtree" | _ -> ());
-                  regs.(r) <- At { a with lo = Some s; hi = Some (s + m) }
-                end else begin
-                  let lim = int_of_string (String.sub op 3 (String.length op - 3)) in
-                  if m > lim then fail r op "Inorder went on after yield returned false";
-                  (match a.hi with Some y when m <> min lim (y - s) -> fail r op "stopped Inorder has the wrong length" | _ -> ());
-                  if m < lim then begin
-                    if not (s <= a.i && a.i < s + m) then fail r op "Inorder does not contain the cursor's key";
-                    regs.(r) <- At { a with lo = Some s; hi = Some (s + m) }
-                  end else regs.(r) <- At { a with lo = Some s }
-                end)
-           | 'N' | 'P' ->
-             (match String.split_on_char ':' it with
-              | ["s"; ks; v] ->
-                let ks = ints_of ks in
-                if v <> "0" then fail r op "still valid after Len+2 steps";
-                let want = match regs.(r) with
-                  | Inv -> []
-                  | At a -> if c = 'N' then Array.to_list (Array.sub l a.i (n - a.i))
-                            else List.rev (Array.to_list (Array.sub l 0 (a.i + 1))) in
-                if ks <> want then fail r op "sweep does not visit exactly the keys from the cursor to the end in order";
-                regs.(r) <- Inv;
-                last.(r) <- ""            (* the sweep moved this register; its state is printed by the next op *)
-              | _ -> fail r op "bad item")
-           | _ ->
-             let bang = String.length it > 0 && it.[String.length it - 1] = '!' in
-             if bang then fail r op "the method did not return its receiver";
-             let obs = Array.of_list (String.split_on_char '/' it) in
-             let target = if c = 'C' then Char.code op.[2] - 48 else r in
-             touch target;
-             if Array.length obs <> !used then fail r op "wrong number of registers";
-             (* a move of one cursor leaves every other cursor (clones included) where it was *)
-             Array.iteri (fun q o -> if q <> target && last.(q) <> "" && o <> last.(q) then fail q op "a cursor changed although another one was moved") obs;
-             let o = obs.(target) in
-             let prev = regs.(target) in
-             let idx () = key_index target op o in
-             let nxt =
-               match c, prev with
-               | 'K', _ ->
-                 let k = int_of_string (String.sub op 3 (String.length op - 3)) in
-                 let j = find_equiv k in
-                 if j < 0 then (if String.sub o 0 3 <> "nil" then fail r op "Cursor(absent key) is not nil"; Inv)
-                 else At { i = j; lo = None; hi = None; bits = "" }
-               | 'O', _ -> if n = 0 then (if String.sub o 0 3 <> "nil" then fail r op "Root of an empty tree is not nil"; Inv)
-                           else At { i = idx (); lo = Some 0; hi = Some n; bits = "" }
-               | ('Z' | 'E'), _ -> Inv
-               | 'C', _ -> regs.(r)
-               | _, Inv -> Inv
-               | 'n', At a -> if a.i + 1 < n then At { i = a.i + 1; lo = None; hi = None; bits = "" } else Inv
-               | 'p', At a -> if a.i > 0 then At { i = a.i - 1; lo = None; hi = None; bits = "" } else Inv
-               | 'l', At a ->
-                 if a.bits.[3] = '1' then begin
-                   let j = idx () in
-                   if j >= a.i then fail r op "Left moved to a key that is not smaller";
-                   (match a.lo with Some x when j < x -> fail r op "Left left the subtree" | _ -> ());
-                   At { i = j; lo = a.lo; hi = Some a.i; bits = "" }
-                 end else Inv
-               | 'r', At a ->
-                 if a.bits.[4] = '1' then begin
-                   let j = idx () in
-                   if j <= a.i then fail r op "Right moved to a key that is not larger";
-                   (match a.hi with Some y when j >= y -> fail r op "Right left the subtree" | _ -> ());
-                   At { i = j; lo = Some (a.i + 1); hi = a.hi; bits = "" }
-                 end else Inv
-               | 'u', At a ->
-                 if a.bits.[5] = '1' then begin
-                   let j = idx () in
-                   if j = a.i then fail r op "Up did not move";
-                   (match a.lo, a.hi with
-                    | Some x, Some y -> if j <> y && j <> x - 1 then fail r op "Up did not reach the key adjacent to the subtree's range"
-                    | Some x, None -> if j < a.i && j <> x - 1 then fail r op "Up reached a smaller key that is not the one just below the subtree"
-                    | None, Some y -> if j > a.i && j <> y then fail r op "Up reached a larger key that is not the one just above the subtree"
-                    | None, None -> ());
-                   At { i = j; lo = (if j > a.i then a.lo else None); hi = (if j < a.i then a.hi else None); bits = "" }
-                 end else Inv
-               | 'm', At a ->
-                 let j = idx () in
-                 if j > a.i then fail r op "Min moved to a larger key";
-                 (match a.lo with Some x when j <> x -> fail r op "Min is not the least key of the subtree" | _ -> ());
-                 At { i = j; lo = Some j; hi = None; bits = "" }
-               | 'x', At a ->
-                 let j = idx () in
-                 if j < a.i then fail r op "Max moved to a smaller key";
-                 (match a.hi with Some y when j + 1 <> y -> fail r op "Max is not the greatest key of the subtree" | _ -> ());
-                 At { i = j; lo = None; hi = Some (j + 1); bits = "" }
-               | _ -> fail r op "unknown op" in
-             regs.(target) <- nxt;
-             check target op o;
-             Array.iteri (fun q o -> last.(q) <- o) obs);
-          go ops' items' in
-      go ops items; None
+      let m = { l; sregs = Array.make 4 Inv; last = Array.make 4 ""; sused = 0; cf; sbig = false; tbl = Some (rank_table (parse_shape shape)) } in
+      sm_run m ops items; None
     with Fail s -> Some s)
   | _ -> None
 
